@@ -27,13 +27,14 @@ DEBUG = int(os.environ.get('SA_DEBUG', '0'))
 
 
 class Interp(EvalMixin):
-    def __init__(self, prog: Program, st_tables, assume_true: tuple[str, ...] = ("message.message_id", "hasattr(message, 'message_id')", "<recorder>"), watch: set[str] | None = None,
+    def __init__(self, prog: Program, st_tables, assume_true: tuple[str, ...] = ("message.message_id", "hasattr(message, 'message_id')", "<recorder>"), watch: set[str] | None = None, guards: set[str] | None = None,
                  inline_prefixes: tuple[str, ...] = INLINE_PREFIXES, msg_field_sets: dict | None = None) -> None:
         self.prog = prog
         self.T = st_tables
         self.ALL = frozenset(st_tables.members)
         self.assume_true = set(assume_true)
         self.watch = watch or set()
+        self.guards = guards or set()
         self.inline_prefixes = inline_prefixes
         self.msg_field_sets = msg_field_sets or {}
         self.paths_seen = 0
@@ -318,13 +319,13 @@ class Interp(EvalMixin):
             # names used inside loops stay live until the loop ends
             for n in ast.walk(fnode):
                 if isinstance(n, (ast.For, ast.While, ast.AsyncFor)):
-                    end = getattr(n, "end_lineno", n.lineno)
+                    end = getattr(n, "end_lineno", n.lineno) + 1
                     for c in ast.walk(n):
                         if isinstance(c, ast.Name) and idx.get(c.id, 0) < end:
                             idx[c.id] = end
                 elif isinstance(n, ast.Try):
                     # a handler / finally may read anything read in its try statement
-                    end = getattr(n, "end_lineno", n.lineno)
+                    end = getattr(n, "end_lineno", n.lineno) + 1
                     for part in n.handlers + n.finalbody:
                         for c in ast.walk(part):
                             if isinstance(c, ast.Name) and idx.get(c.id, 0) < end:
@@ -587,6 +588,23 @@ class Interp(EvalMixin):
             return
         tid = st.txn[-1]
         st.txn = st.txn[:-1]
+        if not commit:
+            # nothing of a rolled-back transaction is durable: compact its events into one marker
+            idx = None
+            for i in range(len(st.trace) - 1, -1, -1):
+                e = st.trace[i]
+                if e.kind == "txn_begin" and e.get("tid") == tid:
+                    idx = i
+                    break
+            if idx is not None:
+                dropped = st.trace[idx:]
+                kinds = tuple(sorted({e.kind + (":" + str(e.get("key"))[:12] if e.kind == "claim" else "") for e in dropped if e.kind not in ("txn_begin",)}))
+                st.trace = st.trace[:idx]
+                st.thash = 0
+                for e in st.trace:
+                    st.thash = hash((st.thash, e))
+                st.emit(ev("txn_rollback", self.site(st, node), tid=tid, attempted=kinds))
+                return
         st.emit(ev("txn_commit" if commit else "txn_rollback", self.site(st, node), tid=tid))
 
     def s_For(self, node, st):
@@ -622,6 +640,8 @@ class Interp(EvalMixin):
     def _loop(self, node, st: State, it):
         elems, may_empty = self._iter_elems(st, it, node)
         unroll = isinstance(it, (ListV, TupleV)) and not (isinstance(it, ListV) and it.open)
+        # elements of an open list may each occur zero times; a possibly-empty collection may not iterate at all
+        opt = 1 if (may_empty or (isinstance(it, ListV) and it.open and len(it.elems) > 1)) else 0
         results: list[State] = []
         abrupt: list = []
         st_trace0 = st.trace
@@ -638,6 +658,7 @@ class Interp(EvalMixin):
             for s in cur:
                 if not unroll:
                     s.loop += 1
+                    s.loopopt += opt
                 self.assign_target(node.target, e, s, node)
                 n, a = self.exec_block(node.body, [s])
                 for s2, o in a:
@@ -646,14 +667,17 @@ class Interp(EvalMixin):
                     elif o.kind == "break":
                         if not unroll:
                             s2.loop -= 1
+                            s2.loopopt -= opt
                         results.append(s2)
                     else:
                         if not unroll:
                             s2.loop = max(0, s2.loop - 1)
+                            s2.loopopt = max(0, s2.loopopt - opt)
                         abrupt.append((s2, o))
                 for s2 in n:
                     if not unroll:
                         s2.loop -= 1
+                        s2.loopopt -= opt
                 nxt.extend(n)
             cur = dedupe(nxt)
         if node.orelse:
@@ -682,18 +706,22 @@ class Interp(EvalMixin):
                 results.append(s)
                 continue
             s.loop += 1
+            s.loopopt += 1
             n, a = self.exec_block(node.body, [s])
             for s2, o in a:
                 if o.kind in ("continue",):
                     n.append(s2)
                 elif o.kind == "break":
                     s2.loop -= 1
+                    s2.loopopt -= 1
                     results.append(s2)
                 else:
                     s2.loop = max(0, s2.loop - 1)
+                    s2.loopopt = max(0, s2.loopopt - 1)
                     abrupt.append((s2, o))
             for s2 in n:
                 s2.loop -= 1
+                s2.loopopt -= 1
                 # facts about the loop condition are stale after one iteration
                 key = self.canon(s2, node.test)
                 s2.facts.pop(key, None)
@@ -737,6 +765,7 @@ class Interp(EvalMixin):
             s.frames[s.cur]["__exc__"] = (o.exc.rstrip("?"), o.val)
             if o.exc.endswith("?"):
                 s.emit(ev("synthetic", self.site(s, h), exc=o.exc, handler=",".join(self._handler_names(h)) or "bare"))
+            self._expire_locals([s], _Line(h.lineno - 1))
             try:
                 k = (s.sig(), id(h))
                 hash(k)
@@ -851,6 +880,9 @@ class Interp(EvalMixin):
         s_true.facts[key] = True
         s_false.facts[key] = False
         self._note_fact(st, key, expr)
+        if raw in self.guards or key in self.guards:
+            s_true.emit(ev("guard", self.site(st, expr), text=key, truth=True))
+            s_false.emit(ev("guard", self.site(st, expr), text=key, truth=False))
         self._refine_truth(expr, v, s_true, True)
         self._refine_truth(expr, v, s_false, False)
         return [(s_true, True), (s_false, False)]
@@ -989,6 +1021,11 @@ class Interp(EvalMixin):
 
 _LOOP_OPTIONAL = {"status_write", "ctx", "call"}
 _COMMIT_KINDS = {"txn_begin", "txn_commit", "auto", "store_stage", "update_workflow_status", "push", "mark", "claim", "event"}
+
+
+class _Line:
+    def __init__(self, end_lineno: int) -> None:
+        self.end_lineno = end_lineno
 
 
 def _dedupe_abrupt(abrupt: list) -> list:
